@@ -438,10 +438,16 @@ def rule_D3_escape(ctx, typer, clsname, quoted=True):
                             ctx.viol("D3", f, y, "identifier `%s` (a nodenamefunc result) is written into the quoted slot without esc(): "
                                      "a name containing '\"' or '\\' breaks the statement" % x.id)
                 if fmt is not None:
-                    n_esc = sum(1 for c in ast.walk(y.value) if isinstance(c, ast.Call) and _last_name(c.func) == "esc")
+                    escs = [c for c in ast.walk(y.value) if isinstance(c, ast.Call) and _last_name(c.func) == "esc"]
                     n += 1
-                    if fmt.count('"%s"') != n_esc:
-                        ctx.viol("D3", f, y, "format %r has %d double-quoted slots for %d escaped identifiers" % (fmt, fmt.count('"%s"'), n_esc))
+                    unq = [c for c in escs if not _in_quoted_slot(y.value, c)]
+                    n_quoted_slots = sum(t_.left.value.count('"%s"') for t_ in ast.walk(y.value)
+                                         if isinstance(t_, ast.BinOp) and isinstance(t_.op, ast.Mod) and isinstance(t_.left, ast.Constant)
+                                         and isinstance(t_.left.value, str))
+                    if unq:
+                        ctx.viol("D3", f, y, "the escaped identifier `%s` is not written into a double-quoted slot of its format" % norm(unq[0]))
+                    elif n_quoted_slots != len(escs):
+                        ctx.viol("D3", f, y, "format %r has %d double-quoted slots for %d escaped identifiers" % (fmt, n_quoted_slots, len(escs)))
                     else:
                         ctx.inst("D3", f, y, "every escaped identifier sits in a double-quoted slot")
     else:
@@ -665,6 +671,10 @@ def rule_D5_structure(ctx, typer, clsname, closing=None, writer="to_dotfile"):
         elif isinstance(st, ast.Expr) and isinstance(st.value, ast.YieldFrom) and isinstance(st.value.value, ast.Call) \
                 and isinstance(st.value.value.func, ast.Attribute):
             order.append(("for", st.value.value.func.attr, True, st))
+        elif isinstance(st, ast.Assign) and all(isinstance(t_, ast.Name) for t_ in st.targets) and not any(
+                isinstance(c_, ast.Call) and isinstance(c_.func, ast.Attribute) and c_.func.attr.startswith("__iter") for c_ in ast.walk(st.value)) \
+                and not any(isinstance(x_, (ast.Yield, ast.YieldFrom)) for x_ in ast.walk(st.value)):
+            continue  # a named intermediate value (e.g. the parts of the header line): produces no line
         else:
             order.append(("other", st))
     want = ["yield", "__iter_options", "__iter_nodes", "__iter_edges"] + (["yield"] if closing else [])
@@ -821,3 +831,29 @@ def rule_D1c_complete(ctx, typer, clsname):
             else:
                 ctx.inst("D1c", f, li.ast.target, "every admitted %s yields its line" % kind)
     return n
+
+
+def _in_quoted_slot(root, call):
+    """the call is an operand of a %-format whose placeholder at that position is wrapped in double quotes"""
+    for t in ast.walk(root):
+        if not (isinstance(t, ast.BinOp) and isinstance(t.op, ast.Mod) and isinstance(t.left, ast.Constant) and isinstance(t.left.value, str)):
+            continue
+        ops = list(t.right.elts) if isinstance(t.right, ast.Tuple) else [t.right]
+        for i, o in enumerate(ops):
+            if o is call:
+                fmt = t.left.value
+                pos, k, j = [], 0, 0
+                while j < len(fmt) - 1:
+                    if fmt[j] == "%":
+                        if fmt[j + 1] == "%":
+                            j += 2
+                            continue
+                        pos.append(j)
+                        j += 2
+                        continue
+                    j += 1
+                if i < len(pos):
+                    q = pos[i]
+                    return q > 0 and fmt[q - 1] == '"' and fmt[q:q + 2] == "%s" and q + 2 < len(fmt) and fmt[q + 2] == '"'
+                return False
+    return False
